@@ -30,7 +30,7 @@ func (cs *Case) input() []byte { b, _ := hex.DecodeString(cs.In); return b }
 
 func mkCase(fam, tgt string, val bool, in []byte, org string, p ...int64) Case {
 	cs := Case{Fam: fam, Tgt: tgt, Val: val, In: hex.EncodeToString(in), Org: org, P: p}
-	if fam == "json" || fam == "map" {
+	if (fam == "json" || fam == "map") && len(in) <= 4096 {
 		cs.Txt = string(in)
 	}
 	return cs
